@@ -38,7 +38,7 @@ for s in seeds:
             zn = re.search(r"zone=(\S+)", d.get("observed", ""))
             if not zn:
                 continue
-            ex = sh("echo 'zone export %s' | %s/build/oracle" % (zn.group(1), V)).stdout.strip()
+            ex = sh("echo 'zone export %s' | %s/build/oracle 2>/dev/null" % (zn.group(1), V)).stdout.strip().split("\n")[-1]
             off0, body = ex.split(" ")
             grp.append("zone set %s %s %s" % (zn.group(1), off0, body))
         # a failure that depends on the requests before it (state left over from earlier calls): keep the
